@@ -44,7 +44,8 @@ var c22Nodes = []string{"n1", "n10", "n2"}
 var c22Pods = []string{"pa", "pab"}
 
 func c22NodeSpec(name, pod string) *sim.NodeSpec {
-	return &sim.NodeSpec{Name: name, Pod: pod, Cores: 4, Memory: 8 << 30, Up: true}
+	// one of the names stands for a node that is down (no heartbeat): it is a node of its pod all the same
+	return &sim.NodeSpec{Name: name, Pod: pod, Cores: 4, Memory: 8 << 30, Up: name != "n10"}
 }
 
 func c22GenOp(r *rand.Rand, focusPod, focusNode string) sim.Op {
@@ -116,7 +117,7 @@ func TestC22(t *testing.T) {
 			p := sim.Part{Node: op.NodeSpec.Name, OK: err == nil}
 			if err != nil {
 				p.Err = err.Error()
-			} else {
+			} else if op.NodeSpec.Up {
 				_ = w.cl.Raw.SetNodeStatus(c, node, 3600) // heartbeat; refused when the node vanished meanwhile
 			}
 			res.Parts = append(res.Parts, p)
